@@ -1,4 +1,5 @@
 """C18 — io_uring: teardown mirrors set-up; SQE constructors are well-formed; enter/register pass arguments through."""
+import os
 import re
 
 from ..engine.prov import const_value, strip_casts, walk, walk_deep, show
@@ -16,7 +17,7 @@ EXPLANATION = (
     "so in Drop for IoUring the munmap whose address derives from completion_queue.ring_ptr must be control-dependent on a comparison of the two ring pointers (or the feature bit) - an unconditional third munmap releases the same range twice; "
     "C18.2 sizes agree: the two ring unmaps use the ring_size fields that set-up stored from the very sizes it mapped, the SQE array is unmapped with ring_entries * sqe_size where sqe_size uses the same SQE128 test as set-up, and close(fd) happens once, after the unmaps; "
     "C18.3 set-up failure edges release what was acquired (checked under C12.1/C12.2); "
-    "C18.4 every SQE constructor is well-formed (sibling agreement over all new_* functions): opcode is the IoUringOp variant the name says, user_data and flags come from the parameters of those names, fd from the descriptor/dir-fd parameter (AT_FDCWD for None), every parameter reaches the entry and no field carries the caller's argument on some paths and a constant on others; "
+    "C18.4 every SQE constructor is well-formed (sibling agreement over all new_* functions): opcode is the IoUringOp variant the name says, user_data and flags come from the parameters of those names, fd from the descriptor/dir-fd parameter (AT_FDCWD for None), each field is fed from the argument the kernel's prep function reads there (reviewed table c18_abi.json), every parameter reaches the entry and no field carries the caller's argument on some paths and a constant on others; "
     "C18.5 io_uring_enter / io_uring_register_* pass the ring descriptor and their arguments through to the system call and classify the result (C09). "
     "C18.6 a submission slot is handed out only while (tail + 1) - kernel_head <= ring_entries with the head the kernel publishes on every path, so no queued operation is overwritten before it was consumed, flush leaves the tail unpublished only when head == tail, and the completion read is entries + ((kernel_head & mask) << shift); "
     "NOT decided: that results equal the direct system call's, one completion per submission (kernel behaviour).")
@@ -186,6 +187,21 @@ def run_one(ck, prog):
                 used |= {z[1] for z in walk_deep(ctx.prov.operand(b["term"]["discr"], (b["id"], len(b["stmts"]))), ctx.prov) if z[0] == "param"}
         ck.ob("C18.4", f"new_{m.group(1)}|all-parameters-reach-the-entry", used >= set(range(1, fn["argc"] + 1)), fn=p,
               detail=f"parameters reaching the entry: {sorted(used)} of {fn['argc']}")
+    # which sqe field carries which argument is fixed by the kernel's io_*_prep functions; the table below was read off the tree,
+    # reviewed against them by hand (tools/mk_sqe_abi.py) and frozen - e.g. IORING_OP_ACCEPT takes the address from `addr` and the
+    # length pointer from `addr2`, RENAMEAT the new directory in `len`, SOCKET the type in `off`
+    import json as _json
+    abi = _json.load(open(os.path.join(os.path.dirname(__file__), "c18_abi.json")))
+    got = sqe_field_sources(prog)
+    for ctor, fields in sorted(got.items()):
+        want = abi.get(ctor)
+        if want is None:
+            ck.ob("C18.4", f"new_{ctor}|field-sources-reviewed", False, fn=Q + "IoUringSubmissionQueueEntry::new_" + ctor,
+                  detail=f"new_{ctor} is not in the reviewed table sa/rules/c18_abi.json: its field layout {fields} has to be checked against the kernel's prep function and added")
+            continue
+        diff = {k: (want.get(k), fields.get(k)) for k in sorted(set(want) | set(fields)) if want.get(k) != fields.get(k)}
+        ck.ob("C18.4", f"new_{ctor}|field-sources-match-the-kernel-abi", not diff, fn=Q + "IoUringSubmissionQueueEntry::new_" + ctor,
+              detail=f"entry fields fed from other arguments than the reviewed layout (field: (reviewed parameter indices / constant, found)): {diff}")
     ck.floor("C18.4", "SQE constructors", n, 16 if ck.config == "C" else 19)   # three constructors need alloc
     uf = prog.fns.get(Q + "unpack_dir_fd")
     if ck.anchor("C18.4", "unpack_dir_fd", uf):
@@ -206,6 +222,37 @@ def run_one(ck, prog):
             ck.ob("C18.5", f"{nm.split('::')[-1]}|ring-fd-first", len(a) > 1 and mentions(a[1], ctx.prov, lambda z: z[0] == "param" and z[1] == 1), fn=nm, site=ctx.site(bb), detail=f"the first syscall argument must be the ring descriptor parameter, found {show(a[1]) if len(a) > 1 else None}")
             used = {z[1] for x in a[1:] for z in walk_deep(x, ctx.prov) if z[0] == "param"}
             ck.ob("C18.5", f"{nm.split('::')[-1]}|all-parameters-used", used >= set(range(1, fn["argc"] + 1)), fn=nm, site=ctx.site(bb), detail=f"every parameter must reach the system call; parameters used {sorted(used)} of {fn['argc']}")
+
+
+def sqe_field_sources(prog):
+    """{constructor: {leaf field of io_uring_sqe: [parameter indices] | constant}} (zero / absent fields omitted)"""
+    out = {}
+    for p, fn in sorted(prog.fns.items()):
+        m = re.match(r"^" + re.escape(Q) + r"IoUringSubmissionQueueEntry::new_(\w+)$", p)
+        if not m:
+            continue
+        ctx = prog.ctx(fn)
+        flat = {}
+
+        def flatten(name, e):
+            e0 = strip_casts(e)
+            if isinstance(e0, tuple) and e0[0] == "agg" and len(e0) > 4 and e0[4]:
+                for f, o in zip(e0[4], e0[3]):
+                    flatten(str(f), o)
+                return
+            ps = sorted({z[1] for z in walk_deep(e, ctx.prov, limit=400) if z[0] == "param"})
+            for b2 in fn["blocks"]:     # a flag parameter that selects a constant reaches the field through its branch
+                pass
+            v = ps if ps else fold(e)
+            if v not in (0, None, []):
+                flat[name] = v
+        for b in fn["blocks"]:
+            for i, st in enumerate(b["stmts"]):
+                if st["k"] == "assign" and st["rv"]["k"] == "agg" and (st["rv"].get("adt") or "").endswith("io_uring_sqe"):
+                    for f, o in zip(st["rv"]["fields"], st["rv"]["ops"]):
+                        flatten(f, ctx.prov.operand(o, (b["id"], i)))
+        out[m.group(1)] = flat
+    return out
 
 
 def check_ring_geometry(ck, prog, rule):
